@@ -5,7 +5,7 @@ from fractions import Fraction as Fr
 from ..absstr import SegStr, Seg
 from ..nf import Rat, C
 from ..source import Unsupported, AnchorError
-from ..xlate import Interp, Obj, ListV, DictV, Raised
+from ..xlate import Interp, Obj, ListV, DictV, Raised, make_set
 from .common import same, show
 
 Z = '\x00'
@@ -114,7 +114,7 @@ def given_as(ids, how):
         return ListV(list(ids))
     if how == 'tuple of strings':
         t = ListV(list(ids))
-        t.frozen = True
+        t.is_tuple = True
         return t
     if how == 'objects with id':
         return ListV([with_id(k, i) for k, i in enumerate(ids)])
@@ -430,6 +430,174 @@ def rejections(run, repo, anchor):
 
 
 # ---------------------------------------------------------------------------------------------------------------------
+# the writers that emit the ranges: the reactions= / interactions= fields of phases, the member lists of BEP relations
+
+CALLER_IDS = {
+    # delimiter: (reaction ids, interaction ids): runs, a hole, two prefixes, a prefix containing another delimiter
+    '_': (['r_0001', 'r_0002', 'r_0004', 's_0010', 's_0011'], ['i_0001', 'i_0002', 'i_0004']),
+    '-': (['rxn-0001', 'rxn-0002', 'rxn-0004', 'a_b-0004', 'a_b-0005'], ['lat-0001', 'lat-0002']),
+    '.': (['rxn.0002', 'rxn.0004', 'rxn.0003', 's.0001'], ['lat.0007', 'lat.0005', 'lat.0006']),
+}
+
+
+def field_entries(text, keyword):
+    """the entries of ``keyword=[...]`` in a CTI directive (CTI is Python syntax: a bracketed list of quoted texts), each
+    in its quotes again; None when the keyword is not there once or is not followed by such a list"""
+    import ast
+    import re
+    found = list(re.finditer(r'(?<![A-Za-z0-9_])%s\s*=\s*' % re.escape(keyword), text))
+    if len(found) != 1:
+        return None
+    rest = text[found[0].end():]
+    if not rest.startswith('['):
+        return None
+    depth = 0
+    quote = None
+    for k, ch in enumerate(rest):
+        if quote:
+            if ch == quote:
+                quote = None
+        elif ch in '"\'':
+            quote = ch
+        elif ch == '[':
+            depth += 1
+        elif ch == ']':
+            depth -= 1
+            if depth == 0:
+                try:
+                    val = ast.literal_eval(rest[:k + 1])
+                except (ValueError, SyntaxError):
+                    return None
+                if not (isinstance(val, list) and all(isinstance(x, str) for x in val)):
+                    return None
+                return ['"%s"' % x for x in val]
+    return None
+
+
+def member(I, ident, by, **attrs):
+    """a reaction (identified by ``id``) or a lateral interaction (by ``name``, no ``id``) as the writers see them"""
+    o = Obj('member<%s>' % ident, attrs=dict({by: ident}, **attrs))
+    if by == 'name':
+        o.missing.add('id')
+    # IdealGas / StoichSolid keep the reactions all of whose species are in the phase (or in none)
+    o.opaque_methods['get_species'] = lambda I_, obj, a, k: DictV()
+    o.opaque_params['get_species'] = ('include_TS', 'key')
+    return o
+
+
+def callers(run, repo):
+    """every writer that hands a collection of identifiers to the helper, entered through its public method with each
+    delimiter: the field it writes must denote exactly the identifiers of its members"""
+    n = 0
+
+    def denotes(I, entries, ids_, delim):
+        got = expand(I, entries, delim) if entries is not None else None
+        return got is not None and sorted(got) == sorted(ids_), got
+
+    for delim in ('_', '-', '.'):
+        rids, iids = CALLER_IDS[delim]
+        kw_d = {} if delim == '_' else {'delimiter': delim}
+        how_d = 'default delimiter' if delim == '_' else 'delimiter=%r' % delim
+        # ---- phases
+        for qual, fields in (('pmutt.cantera.phase.IdealGas', ('reactions',)),
+                             ('pmutt.omkm.phase.IdealGas', ('reactions',)),
+                             ('pmutt.omkm.phase.InteractingInterface', ('reactions', 'interactions'))):
+            ci = repo.cls(qual)
+            owner, fn = repo.find_method(ci, 'to_cti')
+            run.fn(owner.qual + '.to_cti')
+            cn = '%s.%s' % (qual.split('.')[1], ci.name)
+            for as_tuple in (False, True):
+                I = Interp(repo)
+                sp = [Obj('sp%d' % k, attrs={'name': nm, 'elements': DictV({el: C(1)}), 'phase': None})
+                      for k, (nm, el) in enumerate((('H2O(S)', 'H'), ('CO(S)', 'C')))]
+                rx = [member(I, i_, 'id', bep=None) for i_ in rids]
+                li = [member(I, i_, 'name') for i_ in iids]
+                kw = {'name': 'phase1', 'species': ListV(sp), 'reactions': ListV(rx)}
+                if as_tuple:
+                    kw['reactions'].is_tuple = True
+                if 'interactions' in fields:
+                    kw.update({'interactions': ListV(li), 'site_density': I.D.sym('sden'), 'phases': ListV(['gas'])})
+                    if as_tuple:
+                        kw['interactions'].is_tuple = True
+                ph = I.construct(ci, [], kw, name='phase1')
+                if not isinstance(ph, Obj):
+                    raise Unsupported('%s(...) gives %s for a phase with %d reactions' % (qual, show(ph, 80), len(rx)))
+                out = I.call_method(ph, 'to_cti', [], dict(kw_d))
+                n += 1
+                label = '%s, %s%s' % (cn, how_d, ', members given as tuples' if as_tuple else '')
+                if isinstance(out, Raised):
+                    run.fail('REF.range-writers', cn + '.to_cti', 'raises [%s]' % how_d,
+                             '[%s] a phase with the reactions %s%s cannot be written: to_cti raises %s'
+                             % (label, rids, ' and the interactions %s' % iids if 'interactions' in fields else '',
+                                show(out, 100)), owner.module, fn)
+                    continue
+                if not isinstance(out, (str, SegStr)):
+                    raise Unsupported('%s.to_cti gives %s, a text expected' % (cn, show(out, 80)), fn,
+                                      owner.module.relpath)
+                lit = ''.join(s_.text if s_.kind == 'lit' else '\x01' for s_ in I.seg(out).segs)
+                for field in fields:
+                    ids_ = rids if field == 'reactions' else iids
+                    ok, got = denotes(I, field_entries(lit, field), ids_, delim)
+                    run.check(ok, 'REF.range-writers', cn + '.to_cti', '%s= [%s]' % (field, how_d),
+                              '[%s] the phase has the %s %s; its entry says %s=%s, which denotes %s'
+                              % (label, field, ids_, field, field_entries(lit, field), got), owner.module, fn,
+                              sample='%s.to_cti(%s): %s=%s' % (cn, how_d, field, field_entries(lit, field))
+                              if not as_tuple else None)
+        # ---- BEP relations: both member lists in the CTI directive; in the YAML entry (default delimiter only: the
+        # method offers no other)
+        ci = repo.cls('pmutt.omkm.reaction.BEP')
+        syn, cle = rids[:3], rids[3:] + [rids[0]]
+        for meth in ('to_cti', 'to_omkm_yaml'):
+            if meth == 'to_omkm_yaml' and delim != '_':
+                continue
+            owner, fn = repo.find_method(ci, meth)
+            run.fn(owner.qual + '.' + meth)
+            for given in ('lists', 'tuples', 'one side empty'):
+                I = Interp(repo)
+                s_ids, c_ids = (syn, cle) if given != 'one side empty' else ([], cle)
+                ms, mc = (ListV([member(I, i_, 'id') for i_ in x_]) for x_ in (s_ids, c_ids))
+                ms.is_tuple = mc.is_tuple = given == 'tuples'
+                bep = I.construct(ci, [], {'name': 'bep_1', 'slope': I.D.sym('slope'), 'intercept': I.D.sym('icpt'),
+                                           'direction': 'cleavage', 'descriptor': 'delta_H',
+                                           'synthesis_reactions': ms, 'cleavage_reactions': mc}, name='bep_1')
+                if not isinstance(bep, Obj):
+                    raise Unsupported('omkm.reaction.BEP(...) gives %s' % show(bep, 80))
+                out = I.call_method(bep, meth, [], dict(kw_d, act_energy_unit='kcal/mol'))
+                n += 1
+                label = 'BEP.%s, %s, members given as %s' % (meth, how_d, given)
+                if isinstance(out, Raised):
+                    run.fail('REF.range-writers', 'BEP.' + meth, 'raises [%s]' % how_d,
+                             '[%s] a relation over the synthesis reactions %s and the cleavage reactions %s cannot be '
+                             'written: raises %s' % (label, s_ids, c_ids, show(out, 100)), owner.module, fn)
+                    continue
+                for side, ids_ in (('synthesis', s_ids), ('cleavage', c_ids)):
+                    if meth == 'to_cti':
+                        if not isinstance(out, (str, SegStr)):
+                            raise Unsupported('BEP.to_cti gives %s, a text expected' % show(out, 80), fn,
+                                              owner.module.relpath)
+                        lit = ''.join(s_.text if s_.kind == 'lit' else '\x01' for s_ in I.seg(out).segs)
+                        entries = field_entries(lit, side + '_reactions')
+                    else:
+                        if not isinstance(out, DictV):
+                            raise Unsupported('BEP.to_omkm_yaml gives %s, a dictionary expected' % show(out, 80), fn,
+                                              owner.module.relpath)
+                        v_ = out.d.get(side + '-reactions')
+                        # an empty member list is left out of the YAML entry or written as an empty list
+                        entries = [] if v_ is None and not ids_ else \
+                            [I.plain(e_) for e_ in v_.items] if isinstance(v_, ListV) else None
+                        if entries is not None and not all(isinstance(e_, str) for e_ in entries):
+                            entries = None
+                    ok, got = denotes(I, entries, ids_, delim)
+                    run.check(ok, 'REF.range-writers', 'BEP.' + meth, '%s reactions [%s]' % (side, how_d),
+                              '[%s] the relation has the %s reactions %s; its entry lists %s, which denotes %s'
+                              % (label, side, ids_, entries, got), owner.module, fn,
+                              sample='BEP.%s(%s): %s reactions %s' % (meth, how_d, side, entries)
+                              if given == 'lists' else None)
+    return n
+
+
+
+# ---------------------------------------------------------------------------------------------------------------------
 # wrapping
 
 def wrap_anchor(repo):
@@ -438,6 +606,20 @@ def wrap_anchor(repo):
     if fn is None:
         raise AnchorError('pmutt.io.cantera.obj_to_cti not found')
     return m, fn
+
+
+WRAP_CALLS = ('widths by name', 'all three by position', 'value by position, widths by name')
+
+
+def call_wrap(I, anchor, obj, line_len, max_len, how):
+    """obj_to_cti is public: its documented signature is (obj, line_len, max_line_len) and both the names and the
+    positions belong to it (the package's own callers hand the value over by position and the widths by name)"""
+    m, fn = anchor
+    if how == WRAP_CALLS[1]:
+        return I.call_function(m, fn, [obj, C(line_len), C(max_len)], {})
+    if how == WRAP_CALLS[2]:
+        return I.call_function(m, fn, [obj], {'line_len': C(line_len), 'max_line_len': C(max_len)})
+    return I.call_function(m, fn, [], {'obj': obj, 'line_len': C(line_len), 'max_line_len': C(max_len)})
 
 
 SPECIES = ['"H2O(S)"', '"CO(S)"', '"OH(S)"', '"COOH(S)"', '"HCOO(S)"', '"CH3O(S)"', '"H(S)"', '"O(S)"', '"N2(S)"',
@@ -459,9 +641,14 @@ CONCRETE_TOKENS = [
     ('digits only', ['%d' % (10 ** (k % 6)) for k in range(30)], [(30, 30), (100, 100)]),
     ('single characters', list('abcdefghijklmnopqrstuvwxyzABCDEFGHIJKLMNOPQRSTUVWXYZ0123456789-+*/=<>()[]{}#,.;:!?')[:80],
      [(30, 30), (40, 60)]),
-    ('tokens as long as the room of a line', ['H2O(S)', 'A' * 30, 'CO(S)', 'B' * 30, 'OH(S)'], [(33, 33), (33, 60)]),
+    # (the first line may be wider than the others: a phase writes its name= field with max_line_len = line_len - 1)
+    ('tokens as long as the room of a line', ['H2O(S)', 'A' * 30, 'CO(S)', 'B' * 30, 'OH(S)'],
+     [(33, 33), (33, 60), (33, 32), (33, 31), (33, 30)]),
     ('tokens one shorter than the room of a line', ['H2O(S)', 'A' * 29, 'CO(S)', 'B' * 29, 'OH(S)'],
-     [(33, 33), (32, 60)]),
+     [(33, 33), (32, 60), (32, 31), (32, 30)]),
+    ('tokens of 28 characters', ['G' * 28, 'y', 'H' * 28, 'z', 'J' * 28], [(31, 30), (31, 31)]),
+    ('a phase name of several words', ['terrace', 'of', 'the', 'Pt(111)', 'surface', 'K' * 50, 'next', 'to', 'the',
+                                       'steps', 'L' * 40, 'and', 'kinks'], [(65, 64), (53, 52), (65, 80)]),
     ('tokens of 27 characters', ['C' * 27, 'x', 'D' * 27, 'E' * 27], [(30, 30), (31, 31), (30, 100)]),
     ('a token longer than a line', ['H2O', 'F' * 30, 'CO'], [(30, 30), (32, 40)]),
 ]
@@ -494,17 +681,23 @@ def wrapping_concrete(run, repo, anchor, thorough):
     m, fn = anchor
     n = 0
     for label, toks, limits in CONCRETE_TOKENS:
-        for (line_len, max_len), form in itertools.product(limits, ('list', 'tuple', 'string')):
+        # a set where the tokens are distinct (what a phase hands over for elements=): the order is the set's business
+        forms = [(l_, f_) for l_ in limits for f_ in ('list', 'tuple', 'string')] + \
+            ([(l_, 'set') for l_ in limits[:2]] if len(set(toks)) == len(toks) else [])
+        for (line_len, max_len), form in forms:
+            how = WRAP_CALLS[(n + n // 3) % 3]
             I = Interp(repo)
             if form == 'string':
                 obj = ' '.join(toks)
+            elif form == 'set':
+                obj = make_set(I, list(toks))
             else:
                 obj = ListV(list(toks))
-                obj.frozen = form == 'tuple'
-            out = I.call_function(m, fn, [], {'obj': obj, 'line_len': C(line_len), 'max_line_len': C(max_len)})
+                obj.is_tuple = form == 'tuple'
+            out = call_wrap(I, anchor, obj, line_len, max_len, how)
             n += 1
-            tag = '%s: %s ... (%d tokens) line_len=%d max_line_len=%d given as %s' % (
-                label, ' '.join(toks[:3]), len(toks), line_len, max_len, form)
+            tag = '%s: %s ... (%d tokens) line_len=%d max_line_len=%d given as %s, %s' % (
+                label, ' '.join(toks[:3]), len(toks), line_len, max_len, form, how)
             if isinstance(out, Raised):
                 run.fail('REF.wrap', 'io.cantera.obj_to_cti', 'raises', '[%s] raises %s' % (tag, out.exc), m, fn)
                 continue
@@ -513,7 +706,9 @@ def wrapping_concrete(run, repo, anchor, thorough):
                 raise Unsupported('obj_to_cti of concrete tokens gives %s, a text expected' % show(out, 80), fn,
                                   m.relpath)
             got, bad = read_back(text, line_len, max_len)
-            run.check(got == toks, 'REF.wrap-tokens', 'io.cantera.obj_to_cti', 'every token once, in order',
+            run.check(got == toks or (form == 'set' and got is not None and sorted(got) == sorted(toks)),
+                      'REF.wrap-tokens', 'io.cantera.obj_to_cti',
+                      'every token once' + ('' if form == 'set' else ', in order'),
                       '[%s] the wrapped text reads %s' % (tag, (got or text)[:14]), m, fn,
                       sample='[%s] -> %d lines' % (tag, text.count('\n') + 1) if form == 'list' else None)
             run.check(bad is None, 'REF.wrap-width', 'io.cantera.obj_to_cti', 'line width',
@@ -535,7 +730,11 @@ def wrapping(run, repo, anchor, thorough):
     cases = [(w_, l_, 'list') for w_, l_ in itertools.product(widths_sets, limits)]
     # token widths derived from the limits: tokens that just fit into the room of a line (the requested width less the
     # three columns of the quotes / of the indentation), alone on their line, and the first one that does not
-    for l_ in limits + [(33, 33), (32, 60), (31, 100)]:
+    # ... under every relation of the two widths: equal, first line narrower, and first line wider by one to three
+    # columns (what the phases ask for their name= field: 65/64 and 53/52 at the default width; beyond three columns the
+    # continuation indent would have to be negative)
+    for l_ in limits + [(33, 33), (32, 60), (31, 100), (33, 32), (32, 31), (31, 30), (65, 64), (53, 52), (34, 32),
+                        (35, 32), (33, 30)]:
         L = l_[0]
         cases.append(([5, L - 4, 5, L - 3, 5, L - 2, 5], l_, 'list'))
         cases.append(([L - 3, 5, L - 3, L - 4, L - 5], l_, 'list'))
@@ -550,6 +749,7 @@ def wrapping(run, repo, anchor, thorough):
     cases += [([10, 10, 10, 10, 10, 10, 10, 10], l_, f_) for l_ in ((80, 80), (40, 60))
               for f_ in ('repeated', 'repeated side by side')]
     for widths, (line_len, max_len), form in cases:
+        how = WRAP_CALLS[(n + n // 3) % 3]
         I = Interp(repo)
         toks = []
         for k, w in enumerate(widths):
@@ -563,12 +763,12 @@ def wrapping(run, repo, anchor, thorough):
         else:
             obj = ListV(list(toks))
             if form == 'tuple':
-                obj.frozen = True
-        out = I.call_function(m, fn, [], {'obj': obj, 'line_len': C(line_len), 'max_line_len': C(max_len)})
+                obj.is_tuple = True
+        out = call_wrap(I, anchor, obj, line_len, max_len, how)
         n += 1
-        label = 'tokens=%s line_len=%d max_line_len=%d%s' % (widths if len(widths) < 12 else
-                                                            '%d tokens' % len(widths), line_len, max_len,
-                                                            '' if form == 'list' else ' given as ' + form)
+        label = 'tokens=%s line_len=%d max_line_len=%d%s, %s' % (widths if len(widths) < 12 else
+                                                                '%d tokens' % len(widths), line_len, max_len,
+                                                                '' if form == 'list' else ' given as ' + form, how)
         if isinstance(out, Raised):
             run.fail('REF.wrap', 'io.cantera.obj_to_cti', 'raises', '[%s] raises %s' % (label, out.exc), m, fn)
             continue
@@ -640,6 +840,8 @@ def check(run, repo):
     run.floor('range cases, concrete identifiers', n, 55)
     known_respelling(run, repo, ra)
     rejections(run, repo, ra)
+    n = callers(run, repo)
+    run.floor('writers of ranges (phases, BEP relations) x delimiters', n, 30)
     n = wrapping_concrete(run, repo, wa, thorough)
     run.floor('wrapping cases, concrete tokens', n, 70)
     n = ranges(run, repo, ra, thorough)
@@ -650,6 +852,9 @@ def check(run, repo):
 
 C_ = 'pmutt/cantera/__init__.py'
 W_ = 'pmutt/io/cantera.py'
+P_ = 'pmutt/omkm/phase.py'
+G_ = 'pmutt/cantera/phase.py'
+R_ = 'pmutt/omkm/reaction.py'
 MUTANTS = [
     {'name': 'wrap: repeated tokens written once', 'expect': ('REF.wrap-tokens', 'obj_to_cti'),
      'edits': [('pmutt/io/cantera.py', "            cti_str = ' '.join(obj)", "            cti_str = ' '.join(list(dict.fromkeys(obj)))")]},
@@ -715,8 +920,56 @@ MUTANTS = [
                 '                if len(cti_lines) == 1:\n')]},
     {'name': 'wrap: tokens split at hyphens', 'expect': ('REF.wrap-tokens', 'obj_to_cti'),
      'edits': [(W_, "            cti_list = cti_str.split(' ')", "            cti_list = cti_str.replace('-', '- ').split(' ')")]},
+    # ---- white-box round 3
+    {'name': 'x3 wrap: continuation indent written as two factors (differs when the first line is the wider one)',
+     'expect': ('REF.wrap-width', 'obj_to_cti'),
+     'edits': [(W_, "            header_spaces = ' ' * (max_line_len - line_len + 3)",
+                "            header_spaces = ' ' * (max_line_len - line_len) + ' ' * 3")]},
+    {'name': 'x3 wrap: the two widths swapped in the signature', 'expect': ('REF.wrap-width', 'obj_to_cti'),
+     'edits': [(W_, 'def obj_to_cti(obj, line_len=80, max_line_len=80, **kwargs):',
+                'def obj_to_cti(obj, max_line_len=80, line_len=80, **kwargs):')]},
+    {'name': 'x3 wrap: tuples and sets are written in sorted order', 'expect': ('REF.wrap-tokens', 'obj_to_cti'),
+     'edits': [(W_, "        elif isinstance(obj, (list, tuple, set)):\n            cti_str = ' '.join(obj)\n",
+                "        elif isinstance(obj, (tuple, set)):\n            cti_str = ' '.join(sorted(obj))\n"
+                "        elif isinstance(obj, list):\n            cti_str = ' '.join(obj)\n")]},
+    {'name': 'x3 wrap: a set is joined with commas', 'expect': ('REF.wrap-tokens', 'obj_to_cti'),
+     'edits': [(W_, "        elif isinstance(obj, (list, tuple, set)):\n            cti_str = ' '.join(obj)\n",
+                "        elif isinstance(obj, set):\n            cti_str = ','.join(obj)\n"
+                "        elif isinstance(obj, (list, tuple)):\n            cti_str = ' '.join(obj)\n")]},
+    {'name': 'x3 ranges: the collection is copied with a method tuples do not have', 'expect': ('REF.range', '_get_omkm_range'),
+     'edits': [(C_, "        CTI_out = '['\n", "        CTI_out = '['\n        objs = objs.copy()\n")]},
+    {'name': 'x3 ranges: the list form is read from a generator that the string form has used up',
+     'expect': ('REF.range', '_get_omkm_range'),
+     'edits': [(C_, "            CTI_out = CTI_out.split(', ')\n",
+                "            entries = (entry for entry in CTI_out.split(', '))\n"
+                "            CTI_out = '[{}]'.format(', '.join(entries))\n"
+                "            CTI_out = list(entries)\n")]},
+    {'name': 'x3 writers: the interface does not forward the delimiter',
+     'expect': ('REF.range-writers', 'InteractingInterface.to_cti'),
+     'edits': [(P_, "                            _get_omkm_range(objs=val,\n"
+                    "                                           parent_obj=self,\n"
+                    "                                           delimiter=delimiter)))",
+                "                            _get_omkm_range(objs=val, parent_obj=self)))")]},
+    {'name': 'x3 writers: the gas phase does not forward the delimiter', 'expect': ('REF.range-writers', 'IdealGas.to_cti'),
+     'edits': [(G_, "                            _get_omkm_range(objs=val,\n"
+                    "                                           parent_obj=self,\n"
+                    "                                           delimiter=delimiter)))",
+                "                            _get_omkm_range(objs=val, parent_obj=self)))")]},
+    {'name': 'x3 writers: the BEP directive writes its cleavage members with the default delimiter',
+     'expect': ('REF.range-writers', 'BEP.to_cti'),
+     'edits': [(R_, "        cleavage_reactions = _get_omkm_range(objs=self.cleavage_reactions,\n"
+                    "                                            parent_obj=self,\n"
+                    "                                            delimiter=delimiter)",
+                "        cleavage_reactions = _get_omkm_range(objs=self.cleavage_reactions,\n"
+                "                                            parent_obj=self)")]},
+    {'name': 'x3 writers: the BEP YAML entry lists the first range of its cleavage members only',
+     'expect': ('REF.range-writers', 'BEP.to_omkm_yaml'),
+     'edits': [(R_, "            yaml_dict['cleavage-reactions'] = cleavage_reactions",
+                "            yaml_dict['cleavage-reactions'] = cleavage_reactions[:1]")]},
+    {'name': 'x3 writers: the interface writes its interactions under reactions too',
+     'expect': ('REF.range-writers', 'InteractingInterface.to_cti'),
+     'edits': [(P_, "            val = getattr(self, range_field)\n", "            val = getattr(self, range_fields[0])\n")]},
 ]
-R_ = 'pmutt/omkm/reaction.py'
 EQUIV = [
     {'name': 'the id is looked up with hasattr instead of try/except',
      'edits': [(C_, '            try:\n                obj_id = obj.id\n            except AttributeError:\n'
